@@ -1,3 +1,5 @@
 /* IPv6Address: sixteen bytes; operator== is std::equal over them (libstdc++ assumed); modelled loop-free */
 #define V6_eq4(a, b, i) ((a)[i]==(b)[i] && (a)[i+1]==(b)[i+1] && (a)[i+2]==(b)[i+2] && (a)[i+3]==(b)[i+3])
 #define V6_eq(a, b) (V6_eq4(a,b,0) && V6_eq4(a,b,4) && V6_eq4(a,b,8) && V6_eq4(a,b,12))
+/* IPv6Address::is_multicast(): multicast_range = ff00::/8 (src/ipv6_address.cpp), i.e. the first octet is 0xff.  Assumed model of AddressRange::contains. */
+#define V6_is_multicast(a) ((a)[0] == 0xff)
